@@ -95,6 +95,8 @@ where
                 Escape::Spaces => {
                     if c == b' ' || c == b'\n' {
                         out.extend_from_slice(b"\\ ");
+                    } else if c == b'\\' {
+                        out.extend_from_slice(b"\\\\");
                     } else {
                         out.push(c);
                     }
